@@ -9,6 +9,7 @@
   lines with that name, in order, as the hop receives them.
 -/
 import FwdVerif.Lemmas.C06
+import FwdVerif.Lemmas.ReqUpgrade
 
 namespace FwdVerif
 namespace C06
@@ -306,6 +307,97 @@ def exReq : Request :=
 example :
     (match Req.processRequest exUp { clientIP := bs "10.0.0.1" } exReq with
       | .forwarded (.proxy _) out => out.fields.lookup (bs "proxy-authorization") == some [bs "Basic dXA6cHc="]
+      | _ => false) = true := by
+  with_unfolding_all decide
+
+/-! ## C'. Protocol upgrades and nominated credential fields -/
+
+/-- Full strength, every request of the model's domain (any header shape: Proxy-Authorization
+    repeated, in any spelling, nominated in `Connection` or not, on a protocol upgrade or not):
+    over everything written upstream on behalf of the request, NO value other than the credential
+    configured for the upstream proxy ever stands under proxy-authorization — in particular none of
+    the values the client presented to this proxy (unless the operator configured that very value
+    for the upstream proxy) -/
+theorem c06_client_proxy_authorization_reaches_no_hop {cfg : Cfg} {ctx : Ctx} {r : Request}
+    (hr1 : RulesAvoid PA cfg.rules) (hr2 : RulesAvoid PA cfg.connectRules)
+    {w : Bytes} (hw : upstreamAuth cfg.upstream ≠ some w)
+    {a : Action} (ha : a ∈ Req.requestActions cfg ctx r) {s : Sent} (hs : s ∈ a.sent)
+    {e : Bytes × List Bytes} (he : e ∈ s.msg.fields) (hname : e.1 = bs "proxy-authorization") :
+    w ∉ e.2 :=
+  fun hv => hw (c06_request_actions_proxy_authorization hr1 hr2 ha hs he hname hv).1
+
+/-- A protocol upgrade that nominates credential fields next to `Upgrade`: the upgrade re-add puts
+    back `Connection: Upgrade` only, so (1) the hop sees no `Connection` option but the proxy's own
+    `close` and `Upgrade`; (2) every proxy-authorization value at the hop is the upstream proxy's
+    configured credential, read by a proxy hop — an origin sees none; (3) a client Authorization the
+    request nominated is not passed on: the hop sees the site credential for the target, or nothing;
+    (4) no other nominated name that the proxy does not write itself has a line at the hop. -/
+theorem c06_upgrade_nominated_credentials_confined {cfg : Cfg} {ctx : Ctx} {r : Request} {hop : Hop}
+    {out : OutMsg} (hr : cfg.rules = []) (hf : Req.processRequest cfg ctx r = .forwarded hop out)
+    (hup : upgradeRequested r ≠ []) :
+    (∀ v ∈ outValues out (bs "connection"), v = bs "close" ∨ v = bs "Upgrade") ∧
+    (∀ e ∈ out.fields, e.1 = bs "proxy-authorization" → ∀ v ∈ e.2,
+      upstreamAuth cfg.upstream = some v ∧ hop.speaksProxy = true) ∧
+    (bs "authorization" ∈ nominated r →
+      outValues out (bs "authorization") = match cfg.siteCred with | some a => [a] | none => []) ∧
+    (∀ n : Bytes, n.all isTokenByte = true → lower n = n → n ∈ nominated r →
+      n ∉ proxyWrittenLower ++ [bs "user-agent"] → outValues out n = []) := by
+  have hrules : RulesAvoid PA cfg.rules := by rw [hr]; exact fun _ h => by cases h
+  obtain ⟨g0, h3, h4, auth, t⟩ := processRequest_forwarded hf
+  have hne : (upgradeRequested r).isEmpty = false := by
+    cases hu : upgradeRequested r with
+    | nil => exact absurd hu hup
+    | cons _ _ => rfl
+  refine ⟨?_, ?_, ?_, ?_⟩
+  · intro v hv
+    obtain ⟨cl, hcl, ho⟩ := t.outValues_conn hr
+    rw [ho, finish_eq, hr] at hv
+    change v ∈ cl ++ hget (finishTail cfg (upgradeType g0.header) h4) (bs "Connection") at hv
+    rw [hget_finishTail_conn, t.upType, hne] at hv
+    rcases List.mem_append.mp hv with hv | hv
+    · rcases hcl with hcl | hcl <;> rw [hcl] at hv
+      · cases hv
+      · exact Or.inl (by simpa using hv)
+    · exact Or.inr (by simpa using hv)
+  · intro e he hname v hv
+    exact c06_request_proxy_authorization hrules hf he hname hv
+  · intro hnom
+    rw [t.outValues_auth hr]
+    cases cfg.siteCred <;> simp [survivingFirst, survivingValues, hnom]
+  · intro n hn hl hnom hL
+    have k3 : canonicalKey n ∉ fwdKeys := key_not_mem_of_lower stageKeys_written.1 hl hL
+    have k45 : canonicalKey n ∉ [bs "Content-Length", bs "Via"] :=
+      key_not_mem_of_lower stageKeys_written.2.1 hl hL
+    have k6 : canonicalKey n ∉ tailKeys := key_not_mem_of_lower stageKeys_written.2.2 hl hL
+    simp only [List.mem_cons, List.not_mem_nil, or_false, not_or] at k45
+    rw [t.outValues_other hr hn hl (fun hwn => hL (writerNames_written _ hwn))]
+    exact t.hget_nominated_removed hr hn hl hnom k3 (by rw [ck_CL]; exact k45.1)
+      (by rw [ck_Via]; exact k45.2) k6
+
+def exReqUpgrade : Request :=
+  { method := bs "GET", minor := 1, target := .origin, path := bs "/chat", query := none,
+    fields := [(bs "Host", bs "origin.test"), (bs "Proxy-Authorization", bs "Basic Z2F0ZTprZWVwZXI="),
+               (bs "Upgrade", bs "websocket"), (bs "Connection", bs "Upgrade, Proxy-Authorization ,AUTHORIZATION"),
+               (bs "proxy-authorization", bs "Bearer second"), (bs "Authorization", bs "Bearer for-the-proxy")] }
+
+def exGate : Cfg := { tag := bs "t-1", name := bs "fwd", basicAuth := some (bs "gate", bs "keeper") }
+
+-- `Connection: Upgrade, Proxy-Authorization ,AUTHORIZATION` + `Upgrade: websocket` with both credential
+-- fields present (proxy basic auth on, the first Proxy-Authorization is the valid one): the origin gets
+-- `Connection: Upgrade`, `Upgrade: websocket` and neither credential field; an upstream proxy gets its own
+-- credential only
+example : upgradeRequested exReqUpgrade = bs "websocket" ∧
+    (match Req.processRequest exGate { clientIP := bs "10.0.0.1" } exReqUpgrade with
+      | .forwarded (.direct _) out =>
+        out.fields.lookup (bs "connection") == some [bs "Upgrade"] &&
+        out.fields.lookup (bs "upgrade") == some [bs "websocket"] &&
+        out.fields.lookup (bs "proxy-authorization") == none && out.fields.lookup (bs "authorization") == none
+      | _ => false) = true ∧
+    (match Req.processRequest { exUp with basicAuth := exGate.basicAuth } { clientIP := bs "10.0.0.1" } exReqUpgrade with
+      | .forwarded (.proxy _) out =>
+        out.fields.lookup (bs "connection") == some [bs "Upgrade"] &&
+        out.fields.lookup (bs "proxy-authorization") == some [bs "Basic dXA6cHc="] &&
+        out.fields.lookup (bs "authorization") == none
       | _ => false) = true := by
   with_unfolding_all decide
 
